@@ -258,30 +258,71 @@ func runC14(c *Ctx) {
 	}
 
 	// ---- R2 status derives from the arm's error / flush error -----------------------------------------
-	var finalStatus ssa.CallInstruction
-	for _, ci := range CallsIn(fc, "(*git.FilterProcessScanner).WriteStatus") {
-		if _, isPhi := ci.Common().Args[1].(*ssa.Phi); isPhi {
-			finalStatus = ci
-		}
-	}
-	if finalStatus == nil {
-		c.Bad("R2", "final-status", p.Pos(fc.Pos()), "cannot find the final WriteStatus whose argument depends on the outcome")
-	} else {
-		ph := finalStatus.Common().Args[1].(*ssa.Phi)
-		good := true
-		var from []string
-		for _, e := range ph.Edges {
-			cc, _, ok := CallResult(e)
-			if !ok || !nameIn(CalleeName(cc.Common()), []string{"commands.statusFromErr", "commands.delayedStatusFromErr"}) {
-				good = false
+	// The statuses written after an arm ran ("final" statuses: those whose value is not the constant success) are
+	// computed by statusFromErr / delayedStatusFromErr from an error that is the arm's error or the flush error,
+	// and both of those errors reach some final status.
+	{
+		var finals []ssa.CallInstruction
+		usesArm, usesFlush, good := false, false, true
+		why := ""
+		for _, ci := range CallsIn(fc, "(*git.FilterProcessScanner).WriteStatus") {
+			arg := ci.Common().Args[len(ci.Common().Args)-1]
+			constSuccess := false
+			if cc, _, ok := CallResult(arg); ok && CalleeName(cc.Common()) == "commands.statusFromErr" && IsNilConst(cc.Call.Args[0]) {
+				constSuccess = true // the initial status=success before the content
+			}
+			if constSuccess {
 				continue
 			}
-			from = append(from, CalleeName(cc.Common()))
-			if IsNilConst(cc.Call.Args[0]) {
-				good = false
+			finals = append(finals, ci)
+			for _, l := range p.LeavesNoFields(arg, func(v ssa.Value) FlowAct {
+				if cc, _, ok := CallResult(v); ok && nameIn(CalleeName(cc.Common()), []string{"commands.statusFromErr", "commands.delayedStatusFromErr"}) {
+					return Stop
+				}
+				return Descend
+			}) {
+				cc, _, ok := CallResult(l)
+				if !ok || !nameIn(CalleeName(cc.Common()), []string{"commands.statusFromErr", "commands.delayedStatusFromErr"}) {
+					good = false
+					why = "a final status is " + describeValue(p, l) + ", not computed by statusFromErr/delayedStatusFromErr"
+					continue
+				}
+				if IsNilConst(cc.Call.Args[0]) {
+					good = false
+					why = "one way of computing the final status ignores every error (status from a literal nil)"
+				}
+				for _, el := range p.LeavesNoFields(cc.Call.Args[0], func(v ssa.Value) FlowAct {
+					if ec, _, ok := CallResult(v); ok && strings.HasPrefix(CalleeName(ec.Common()), "commands.") || ok && strings.HasSuffix(CalleeName(ec.Common()), ".Flush") {
+						return Stop
+					}
+					return Descend
+				}) {
+					if IsNilConst(el) {
+						// nil is what `err` holds before an arm assigns it; a status from a literal nil alone is checked below
+						continue
+					}
+					if ec, _, ok := CallResult(el); ok {
+						n := CalleeName(ec.Common())
+						if strings.HasSuffix(n, ".Flush") {
+							usesFlush = true
+						} else if n == "commands.clean" || n == "commands.smudge" || n == "commands.delayedSmudge" || strings.HasSuffix(n, ".WriteList") || strings.HasPrefix(n, "commands.") {
+							usesArm = true
+						}
+					}
+				}
 			}
 		}
-		c.Check(good && len(from) == 3, "R2", "final-status", p.InstrPos(finalStatus), "status computed from the delayed error, the flush error or the arm's error", "the final status is not computed from the arm's error / the flush error on every path (a failed request could be answered with status=success)")
+		if len(finals) == 0 {
+			c.Bad("R2", "final-status", p.Pos(fc.Pos()), "cannot find the final WriteStatus whose argument depends on the outcome")
+		} else {
+			if good && !usesArm {
+				good, why = false, "no final status is computed from the error of the clean/smudge/list arm"
+			}
+			if good && !usesFlush {
+				good, why = false, "no final status is computed from the error of flushing the content"
+			}
+			c.Check(good, "R2", "final-status", p.InstrPos(finals[len(finals)-1]), "status computed from the delayed error, the flush error or the arm's error", "the final status is not computed from the arm's error / the flush error on every path (a failed request could be answered with status=success): "+why)
+		}
 	}
 
 	// ---- R3 shared implementation ------------------------------------------------------------------------
@@ -371,7 +412,7 @@ func runC14(c *Ctx) {
 					return false, false
 				})
 				g, path := Guarded(main.Body, in, pass, noReturnCommands)
-				c.Check(g && len(pass) > 0, "R4", "remember-only-when-delayed", p.InstrPos(in), "a path is remembered only when its smudge was delayed", "a path can be remembered as delayed although its smudge was answered immediately: "+path)
+				c.Check(g && nonVacuous(pass), "R4", "remember-only-when-delayed", p.InstrPos(in), "a path is remembered only when its smudge was delayed", "a path can be remembered as delayed although its smudge was answered immediately: "+path)
 			}
 			if cc := AsCall(in); cc != nil {
 				if bi, ok := cc.Value.(*ssa.Builtin); ok && bi.Name() == "delete" && strings.Contains(short(cc.Args[0].Type().String()), "lfs.Pointer") {
@@ -387,7 +428,7 @@ func runC14(c *Ctx) {
 						return false, false
 					})
 					g, path := Guarded(main.Body, in, pass, noReturnCommands)
-					c.Check(g && len(pass) > 0, "R4", "forget-only-after-success", p.InstrPos(in), "a delayed path is forgotten only after its content was delivered without error", "a delayed path can be forgotten although delivering its content failed (it would never be announced again): "+path)
+					c.Check(g && nonVacuous(pass), "R4", "forget-only-after-success", p.InstrPos(in), "a delayed path is forgotten only after its content was delivered without error", "a delayed path can be forgotten although delivering its content failed (it would never be announced again): "+path)
 				}
 			}
 		}
